@@ -231,6 +231,14 @@ func (ws *priorityWriteSchedulerRFC7540) OpenStream(streamID uint32, options Ope
 			panic(fmt.Sprintf("stream %d already opened", streamID))
 		}
 		curr.state = priorityNodeOpenRFC7540
+		// The node is no longer idle: take it off the idle list, otherwise a
+		// later idle node would evict it from the tree while it is open.
+		for i, n := range ws.idleNodes {
+			if n == curr {
+				ws.idleNodes = append(ws.idleNodes[:i], ws.idleNodes[i+1:]...)
+				break
+			}
+		}
 		return
 	}
 
